@@ -8,6 +8,7 @@ import (
 	"github.com/gr33nbl00d/caddy-revocation-validator/core"
 	"github.com/gr33nbl00d/caddy-revocation-validator/core/hashing"
 	"github.com/gr33nbl00d/caddy-revocation-validator/core/utils"
+	"github.com/gr33nbl00d/caddy-revocation-validator/core/verifhook"
 	"github.com/gr33nbl00d/caddy-revocation-validator/crl/crlreader"
 	"github.com/syndtr/goleveldb/leveldb"
 	"go.uber.org/zap"
@@ -39,6 +40,7 @@ func (S *LevelDbStore) StartUpdateCrl(info *crlreader.CRLMetaInfo) error {
 	if err != nil {
 		return fmt.Errorf("could not update CRLMetaInfo: %v", err)
 	}
+	verifhook.Hit("ldb.put.meta")
 	return nil
 }
 
@@ -53,6 +55,7 @@ func (S *LevelDbStore) InsertRevokedCert(entry *crlreader.CRLEntry) error {
 	if err != nil {
 		return fmt.Errorf("could not insert crl entry: %v", err)
 	}
+	verifhook.Hit("ldb.put.entry")
 	return nil
 }
 func (S *LevelDbStore) GetCertRevocationStatus(issuer *pkix.RDNSequence, certSerial *big.Int) (*core.RevocationStatus, error) {
@@ -174,29 +177,35 @@ func (S *LevelDbStore) Update(store CRLStore) error {
 	if err != nil {
 		return err
 	}
+	verifhook.Hit("ldb.update.closed-old")
 	err = S.closeDbWithRetries(levelDbNew.Db)
 	if err != nil {
 		return err
 	}
+	verifhook.Hit("ldb.update.closed-new")
 	levelDBPath := filepath.Join(S.BasePath, S.Identifier)
 	levelDBPathTemp, err := S.renameWithRetriesToTempDir(S.LevelDBPath)
 	if err != nil {
 		return err
 	}
+	verifhook.Hit("ldb.update.moved-old")
 	err = S.renameWithRetries(levelDbNew.LevelDBPath, levelDBPath)
 	if err != nil {
 		return err
 	}
+	verifhook.Hit("ldb.update.moved-new")
 
 	err = S.removeWithRetries(levelDBPathTemp)
 	if err != nil {
 		S.Logger.Warn("failed to delete temporary path, will be deleted on next restart", zap.String("path", levelDBPathTemp))
 	}
+	verifhook.Hit("ldb.update.removed-old")
 	db, err := openDbWithRetries(levelDBPath, S.Logger)
 	if err != nil {
 		return err
 	}
 	S.Db = db
+	verifhook.Hit("ldb.update.reopened")
 	return nil
 }
 
